@@ -512,7 +512,7 @@ def tiny_cases(prop, tier, seed, n_progs=None, variants=("rel-h", "dbg-h"), scen
     (2) enumerate scripts: every single preemption of a freeing thread, every pair of preemptions of the same freeing thread at most 3 of
     its own points apart (the shape of ABA / lost-update windows) with every choice of the threads that run in the window, and samples of
     preemptions of the owner and of spurious weak-CAS failures."""
-    n_progs = n_progs if n_progs is not None else tier_n(tier, 24, 200)
+    n_progs = n_progs if n_progs is not None else tier_n(tier, 24, 100)
     build.build_many([("drv_mt", v) for v in variants])
     rnd = random.Random(seed * 7919 + 13)
     progs = [(rnd.randrange(1, 1 << 30), rnd.choice([3, 3, 4]), dict(envs[i % len(envs)])) for i in range(n_progs)]
@@ -605,7 +605,7 @@ def c02(tier, seed):
     ex = mt_cases(prop, "exit", tier, seed, n_baton=tier_n(tier, 400, 10000), n_par=tier_n(tier, 4, 40), n_tsan=tier_n(tier, 2, 20), start=700000)
     for c in core.run_cases(ex): v.add(c)
     cases += ex
-    tx = tiny_cases(prop, tier, seed + 5, n_progs=tier_n(tier, 6, 60), scenario="tinyx", envs=TINYX_ENVS, max_scripts=tier_n(tier, 3000, 12000))      # see C09
+    tx = tiny_cases(prop, tier, seed + 5, n_progs=tier_n(tier, 6, 20), scenario="tinyx", envs=TINYX_ENVS, max_scripts=tier_n(tier, 3000, 6000))      # see C09
     for c in core.run_cases([c for c in tx if c.exit is None]): pass
     for c in tx: v.add(c)
     cases += tx; tiny = tiny + tx
@@ -651,7 +651,7 @@ def c09(tier, seed):
     for c in core.run_cases(cases): v.add(c)
     # tiny programs with enumerated preemptions: a thread hands its blocks to 2-3 others and terminates; they free them (each trying to adopt the abandoned segment under
     # reclaim-on-free), allocate again and verify
-    tiny = tiny_cases(prop, tier, seed, n_progs=tier_n(tier, 8, 80), scenario="tinyx", envs=TINYX_ENVS, max_scripts=tier_n(tier, 3000, 12000))
+    tiny = tiny_cases(prop, tier, seed, n_progs=tier_n(tier, 8, 40), scenario="tinyx", envs=TINYX_ENVS, max_scripts=tier_n(tier, 3000, 6000))
     for c in core.run_cases([c for c in tiny if c.exit is None]): pass
     for c in tiny: v.add(c)
     cases += tiny
